@@ -333,8 +333,13 @@ def conclude(a, cfg, tier, seed, results, native, t0):
                                       "reason": "obligation of the reference tree was not generated (%s mode)" % mode})
     if n_obl == 0 and cfg["contracts"]:
         faults.append("zero proof obligations generated")
+    # contracts with a path the executor could not analyse (unsupported construct in changed code): their canaries may be
+    # dead or missing for that reason alone - reported as undecided (above), not as a fault of the checker
+    partial = {r_["contract"] for r_ in results if any("unroll bound" not in u for u in r_.get("undecided_paths", []))}
     for name, st in canaries.items():
         auto = name.endswith("/canary.normal_return_reachable")
+        if name.split("/canary.")[0] in partial:
+            continue
         if st == "dead" or (st != "refuted" and not auto):
             faults.append("canary %s was not refuted (%s): %s" % (name, st, "no concrete input reaches a normal return - vacuous contract"
                           if auto else "the refutation path of the checker is not working or the clause is vacuous"))
